@@ -1,5 +1,5 @@
 // Scenario `torn` (C20): multi-read getters against a writer that removes blocks WITH transactions and assets.
-// The block cache is tiny (3) and the writer removes up to 10 blocks in a row, so that readers are served from the
+// The block cache is tiny (2) and the writer removes up to 30 blocks in a row (up to 40 below the highest height), so that readers are served from the
 // database while the batch that deletes a block is applied, and so that the cache runs empty and is reloaded.
 // Oracle: every block returned by GetBlockByHeight / GetBlock / GetBlocksBetweenHeight / LastBlock / GetLastBlock is
 // byte-identical (Encode) to a block the writer committed under that id, at the requested height; the only acceptable
@@ -21,7 +21,7 @@ import (
 func scenarioTorn(cfg config, r *hx.Rng) (rec, []mmRec) {
 	n := cfg.readers
 	c := newCtl("torn", cfg, n+2, n+1)
-	const base, minH, ntx, cache = 40, 30, 3, 3
+	const base, minH, ntx, cache = 70, 30, 3, 2
 	c.params["height"], c.params["min_height"], c.params["txs"], c.params["max_block_cache"], c.params["ms"] = base, minH, ntx, cache, cfg.ms
 	seeds := make([]uint64, n+2)
 	for i := range seeds {
@@ -29,6 +29,7 @@ func scenarioTorn(cfg config, r *hx.Rng) (rec, []mmRec) {
 	}
 	return run(c, func() {
 		f := newFixtureCache(c, hx.NewRng(seeds[n+1]), n+1, base, ntx, cache)
+		f.maxDepth, f.maxRun = 40, 30 // long removal runs: many more removals in a row than the cache holds
 		var wg sync.WaitGroup
 		wg.Add(1)
 		go func() { defer wg.Done(); f.churn(c, n, hx.NewRng(seeds[n]), minH, ntx) }()
